@@ -102,8 +102,26 @@ pub Rev: Vec<(&'input str, &'input str)> = List<Kv<V, K>>;
 FLAGS = [(c, w, r) for c in (False, True) for w in (True, False) for r in (False, True)]
 
 
-def grammars(tier, workdir):
-    """-> [(id, path)] : the repository's own grammars plus the ones above"""
+def random_grammars(seed, n, d):
+    """seeded random core grammars (the generator of the sim engine), half of them with the recursive-ascent back end"""
+    try:
+        import gen
+        pop = gen.random_population(seed, n, max_nt=5, max_t=5, max_prods=12)
+    except Exception as ex:  # the generator belongs to another engine: its absence only shrinks the population
+        log("random grammars not available: %s" % ex)
+        return []
+    out = []
+    for k, g in enumerate(pop):
+        gid = "g_%s" % g["id"]
+        p = os.path.join(d, gid + ".lalrpop")
+        with open(p, "w") as f:
+            f.write(gen.render_plain(g, codegen_attr="#[recursive_ascent]" if k % 2 else ""))
+        out.append((gid, p))
+    return out
+
+
+def grammars(tier, workdir, seed=1, nrandom=None):
+    """-> [(id, path)] : the repository's own grammars, the ones above, and seeded random ones"""
     out = []
     d = os.path.join(workdir, "custom")
     os.makedirs(d, exist_ok=True)
@@ -122,6 +140,7 @@ def grammars(tier, workdir):
     if tier == "quick":
         # the large outputs are kept for the thorough tier
         out = [(g, p) for g, p in out if "issue_394" not in g]
+    out += random_grammars(seed, nrandom if nrandom is not None else (200 if tier == "thorough" else 16), d)
     return out
 
 
@@ -209,7 +228,7 @@ def replay(obj):
     vlib.cargo_build_or_die(["fsdrv"])
     wd = mkscratch("outr")
     try:
-        gs = dict(grammars("thorough", wd))
+        gs = dict(grammars("thorough", wd, obj.get("seed", 1), obj.get("nrandom")))
         cases = []
         for k, o in enumerate(obj["observations"]):
             if o["how"].startswith("batch"):
